@@ -97,10 +97,22 @@ def check_symmetry(ctx, R="C18.symmetry"):
                 problems.append(f"integer payloads written as (length, byteorder, signed) {tb} but read as {fb}")
         # tag thresholds
         wtags = sorted({b.elts[0].value for c in ast.walk(enc) if isinstance(c, ast.Call) and dotted(c.func) == "bytes" and c.args and isinstance(c.args[0], ast.List) for b in [c.args[0]] if b.elts and isinstance(b.elts[0], ast.Constant)})
-        rtags = sorted({c.comparators[0].value for c in ast.walk(dec) if isinstance(c, ast.Compare) and isinstance(c.comparators[0], ast.Constant) and isinstance(c.comparators[0].value, int) and unparse(c.left) == "first" and isinstance(c.ops[0], ast.Eq)})
+        firsts = set(lib.locals_assigned(dec, lambda v: isinstance(v, ast.Subscript) and lib.const(v.slice) == 0))  # the tag byte, whatever it is called
+        rtags, small_r = set(), []
+        for c in ast.walk(dec):
+            cp = lib.cmp_parts(c)
+            if cp is None:
+                continue
+            l_, op_, r_ = cp
+            if op_ is ast.Eq and ((l_ in firsts and r_.isdigit()) or (r_ in firsts and l_.isdigit())):
+                rtags.add(int(r_ if l_ in firsts else l_))
+            elif op_ is ast.LtE and l_ in firsts and r_.isdigit():
+                small_r.append(int(r_))
+            elif op_ is ast.Lt and l_ in firsts and r_.isdigit():
+                small_r.append(int(r_) - 1)
+        rtags = sorted(rtags)
         if wtags or rtags:
             small_w = [c.comparators[-1].value for c in ast.walk(enc) if isinstance(c, ast.Compare) and len(c.ops) == 2 and lib.const(c.left) == 0 and isinstance(c.comparators[-1], ast.Constant)]
-            small_r = [c.comparators[0].value for c in ast.walk(dec) if isinstance(c, ast.Compare) and unparse(c.left) == "first" and isinstance(c.ops[0], ast.LtE)]
             # the reader's last tag is the else branch
             if not (set(rtags) <= set(wtags) and len(wtags) - len(rtags) <= 1 and small_w == small_r):
                 problems.append(f"tag bytes: writer uses {wtags} / direct values <= {small_w}, reader tests {rtags} / direct values <= {small_r}")
@@ -126,15 +138,23 @@ def check_symmetry(ctx, R="C18.symmetry"):
     w = seq_w(ws)
     r_reads = [lib.const(c.args[0]) for c in sorted(_reads(rs), key=lambda c: c.lineno)]
     fw = _formats(ws, "pack")
-    okw = [k for k, _ in w] == ["bytes", "bytes", "bytes", "sample"] and fw == ["<H"] and "len(scenario.astHash) == 4" in unparse(ws) and "len(optionsHash) == 4" in unparse(ws)
+    asserts_w = {lib.role_text(ws, a.test) for a in walk_local(ws) if isinstance(a, ast.Assert)}
+    written = [lib.role_text(ws, c.args[0]) for c in sorted((c for c in walk_local(ws) if isinstance(c, ast.Call) and unparse(c.func) == "self.stream.write" and c.args), key=lambda c: (c.lineno, c.col_offset))]
+    okw = (
+        [k for k, _ in w] == ["bytes", "bytes", "bytes", "sample"]
+        and fw == ["<H"]
+        and {lib.role_text(None, "len(scenario.astHash) == 4"), lib.role_text(None, "len(scenario.compileOptions.hash) == 4")} <= asserts_w
+        and written == [lib.role_text(None, "struct.pack('<H', self.sceneFormatVersion())"), "scenario.astHash", "scenario.compileOptions.hash"]
+    )
     okr = r_reads == [2, 4, 4] and _formats(rs, "unpack") == ["<H"] and "self.readSample(scenario.dependencies)" in unparse(rs) and "self.writeSample(scenario.dependencies, scene.sample)" in unparse(ws)
     if okw and okr:
         ctx.ok(R, rs, "scene: version(<H, 2 bytes) + AST hash(4) + options hash(4) + sample of scenario.dependencies, same order both ways")
     else:
         ctx.finding(R, rs, "scene header symmetry", f"writeScene writes {[k for k, _ in w]} with formats {fw}; readScene reads sizes {r_reads}: field sequence / widths differ")
     t = unparse(rs)
-    checks = ["version != self.sceneFormatVersion()", "verify and astHash != scenario.astHash", "verify and optionsHash != scenario.compileOptions.hash"]
-    miss = [c for c in checks if c not in t]
+    checks = ["struct.unpack('<H', self.stream.read(2))[0] != self.sceneFormatVersion()", "verify and self.stream.read(4) != scenario.astHash", "verify and self.stream.read(4) != scenario.compileOptions.hash"]
+    raising = {lib.role_text(rs, i.test) for i in walk_local(rs) if isinstance(i, ast.If) and any(isinstance(x, ast.Raise) and x.exc is not None and "SerializationError" in unparse(x.exc) for x in i.body)}
+    miss = [c for c in checks if lib.role_text(None, c) not in raising]
     if not miss and t.count("raise SerializationError") >= 4:
         ctx.ok(R, rs, "readScene refuses another format version, another program (AST hash) and other compile options")
     else:
@@ -248,7 +268,11 @@ def check_errors(ctx, R="C18.errors"):
             )
     rv = ser.methods["readValue"]
     tr = [t for t in ast.walk(rv) if isinstance(t, ast.Try)]
-    if tr and any(unparse(h.type) == "Exception" and "raise SerializationError" in unparse(h) for h in tr[0].handlers) and "decoder(self.stream)" in unparse(tr[0]):
+    decs = set()
+    for n_ in walk_local(rv):
+        if isinstance(n_, ast.Assign) and isinstance(n_.targets[0], ast.Tuple) and len(n_.targets[0].elts) == 2 and "self.codecs[" in unparse(n_.value) and isinstance(n_.targets[0].elts[1], ast.Name):
+            decs.add(n_.targets[0].elts[1].id)
+    if tr and any(h.type is not None and unparse(h.type) == "Exception" and "raise SerializationError" in unparse(h) for h in tr[0].handlers) and any(f"{d}(self.stream)" in unparse(tr[0]) for d in decs | {"self.codecs[ty][1]"}):
         ctx.ok(R, rv, "readValue converts any codec failure into SerializationError")
     else:
         ctx.finding(R, rv, "readValue wrapping", "Serializer.readValue no longer wraps decoder calls in `except Exception -> SerializationError`")
